@@ -9,7 +9,8 @@ the file system:
 
 Every *outermost* wrapped call on a path below `Tracer.root` is one operation of the trace
 alphabet of `DclabModel.Cli.Op`.  `fail_at = k` makes the k-th operation raise `OSError`
-(`kind="raise"`; a `close` is performed first and then reported as failed, so no handle leaks)
+(`kind="raise"`; a `close` is performed first, and — for a file open for writing — the file is
+truncated to half its size like after a failed flush, then the close is reported as failed)
 or kills the process immediately before it (`kind="kill"`, `os._exit(9)`).
 """
 import errno
@@ -27,6 +28,7 @@ class Tracer:
         self.active = False
         self.depth = 0
         self.ops = []          # (kind, path[, path2])
+        self.aliases = {}      # (st_dev, st_ino) -> canonical path of a registered file
         self.labels = []       # per operation: HDF5 object class written ("events", "attrs:logs", …)
         self._label = ""
         self.fail_at = None
@@ -35,18 +37,58 @@ class Tracer:
         self._saved = []
 
     # ------------------------------------------------------------------------------
-    def norm(self, p):
-        try:
-            if isinstance(p, bytes):
-                p = p.decode()
-            if not isinstance(p, (str, os.PathLike)):
-                return None
-            s = os.path.abspath(os.fspath(p))
-        except Exception:
+    def _str(self, p):
+        if isinstance(p, bytes):
+            p = p.decode()
+        if not isinstance(p, (str, os.PathLike)):
             return None
+        return os.fspath(p)
+
+    def _inroot(self, s):
         if self.root is None or not s.startswith(self.root + os.sep):
             return None
         return s
+
+    def norm_entry(self, p):
+        """canonical name of the *directory entry* an unlink/rename acts on: symbolic links in the
+        directory part are followed, a final symbolic link is not (it is the link that is removed
+        or replaced)"""
+        try:
+            s = self._str(p)
+            if s is None:
+                return None
+            s = os.path.abspath(s)
+            s = os.path.join(os.path.realpath(os.path.dirname(s)), os.path.basename(s))
+        except Exception:
+            return None
+        return self._inroot(s)
+
+    def norm(self, p):
+        """canonical name of the *file* an open/write/close acts on: all symbolic links followed
+        (realpath) and hard links identified by inode with the registered files (`aliases`), so
+        that an operation reaching an input or output through an alias is classified as such"""
+        try:
+            s = self._str(p)
+            if s is None:
+                return None
+            s = os.path.realpath(os.path.abspath(s))
+            try:
+                st = os.stat(s)
+                s = self.aliases.get((st.st_dev, st.st_ino), s)
+            except OSError:
+                pass
+        except Exception:
+            return None
+        return self._inroot(s)
+
+    def register(self, paths):
+        """remember the inodes of existing files (inputs) for alias detection"""
+        for p in paths:
+            try:
+                st = os.stat(p)
+                self.aliases.setdefault((st.st_dev, st.st_ino), os.path.realpath(p))
+            except OSError:
+                pass
 
     def hit(self, kind, *paths):
         """called before the operation is performed; returns True if the fault fires *after*
@@ -87,6 +129,12 @@ class Tracer:
                     tr._label = labelfn(*a, **kw)
                 except Exception:
                     tr._label = "?"
+            writable = False
+            if k == "close":
+                try:
+                    writable = a[0].mode != "r"
+                except Exception:
+                    writable = False
             late = tr.hit(k, *paths)
             tr.depth += 1
             try:
@@ -94,6 +142,15 @@ class Tracer:
             finally:
                 tr.depth -= 1
             if late:
+                # a failing close of a file open for writing is a failed flush: the handle is
+                # released, but the data on disk are incomplete
+                if writable:
+                    try:
+                        size = os.path.getsize(paths[0])
+                        with open(paths[0], "r+b") as fd:
+                            fd.truncate(size // 2)
+                    except OSError:
+                        pass
                 raise OSError(errno.EIO, "verif: injected I/O error while closing")
             return res
 
@@ -169,8 +226,9 @@ class Tracer:
         self._wrap(h5py.h5o, "copy", "write", h5o_dst, copy_label)
 
         # -- renames / removals ---------------------------------------------------------
-        two = lambda a, b, *r, **kw: (n(a), n(b))                        # noqa: E731
-        one = lambda a, *r, **kw: (n(a),)                                # noqa: E731
+        ne = self.norm_entry
+        two = lambda a, b, *r, **kw: (ne(a), ne(b))                      # noqa: E731
+        one = lambda a, *r, **kw: (ne(a),)                               # noqa: E731
         self._wrap(pathlib.Path, "rename", "rename", two)
         self._wrap(pathlib.Path, "replace", "rename", two)
         self._wrap(pathlib.Path, "unlink", "unlink", one)
@@ -180,15 +238,17 @@ class Tracer:
         self._wrap(os, "unlink", "unlink", one)
         self._wrap(shutil, "move", "rename", two)
         for name in ("copy", "copy2", "copyfile"):
-            self._wrap(shutil, name, "copyto", two)
+            self._wrap(shutil, name, "copyto", lambda a, b, *r, **kw: (n(a), n(b)))
 
     def uninstall(self):
         for owner, name, orig in reversed(self._saved):
             setattr(owner, name, orig)
         self._saved = []
 
-    def start(self, root, fail_at=None, kind="raise"):
-        self.root = os.path.abspath(str(root))
+    def start(self, root, fail_at=None, kind="raise", inputs=()):
+        self.root = os.path.realpath(str(root))
+        self.aliases = {}
+        self.register(inputs)
         self.ops = []
         self.labels = []
         self.depth = 0
